@@ -870,6 +870,12 @@ func (x *Exec) contractEffect(c *Contract, obj *types.Func, fi *FuncInfo, call *
 	if fi != nil {
 		pkg = fi.Pkg
 	}
+	if len(c.Joins) > 0 {
+		// started with go, a body that joins a WaitGroup uses up one of its announcements (see joinEffects)
+		if f := x.W.Fields["sync.WaitGroup.spawned"]; f != nil {
+			addLoc(f.Key, nil)
+		}
+	}
 	for _, m := range c.Modifies {
 		func() {
 			defer func() {
